@@ -113,7 +113,7 @@ def validate_events(module, cfg, events, scope_path, on_reject, chunk=200, timeo
             on_reject(rest_idx[fu - 1])
             rest, rest_idx = rest[fu:], rest_idx[fu:]
             guard += 1
-            if not rest or guard > 30:
+            if not rest or guard > 6:
                 break
             res = common.validate_trace(module, cfg, rest, env=e, timeout=timeout)
             traces += 1
